@@ -1,7 +1,7 @@
 SPECIFICATION GenSpecX
 CONSTANTS Names <- NamesMB Depth = 3 Vals <- ValsX Sep = 46 Design = "list" Base <- NoBase MaxSlots = 6
   Ends <- Ends0 Strs <- None Seps <- None Asgs <- None Elems <- None
-  Configs <- NodeConfigsQ OptNames <- OptAB SecNames <- SecAE Values <- ValsDocQ Decos <- Decos1 MaxNodes = 2 MaxDepth = 1
+  Configs <- NodeConfigsQ OptNames <- OptA SecNames <- SecAE Values <- ValsDocQ Decos <- Decos1 MaxNodes = 2 MaxDepth = 1
   Routes <- RDocs Cfgs <- CfgTN SingleKinds <- SKAssign PrePaths <- PreG
   LoadKinds <- LoadQ TwoFiles = FALSE EnvCalls <- None ArgCalls <- None ClearLists <- None
   MsgSets <- None MsgGets <- None NodeBases <- BasesQ FputSeps <- None
